@@ -204,8 +204,20 @@ pub fn gen_world(seed: u64) -> C13World {
         }
     }
     // planted faults of the real kind
-    let mut planted = if r.chance(1, 5) { r.below(6) + 1 } else { 0 };
+    let mut planted = if r.chance(1, 5) { r.below(7) + 1 } else { 0 };
     let mut extra_modules: Vec<(String, String)> = Vec::new(); // (root-relative path, id) of leaf modules planted below
+    if planted == 7 {
+        // an ABSOLUTE import string whose file does not exist, while the same path taken as a relative one exists below
+        // every search location: absolute paths bypass the search, so this is an error at the import site
+        let mut bases: Vec<String> = real_j.clone();
+        if let Some(d) = &main_dir {
+            bases.push(d.clone());
+        }
+        for b in bases {
+            tree.push((path_of(&b, "nonexistent_abs_verif"), Entry::Dir));
+            tree.push((path_of(&b, "nonexistent_abs_verif/ghost.libsonnet"), Entry::File(b"\"decoy: an absolute import must not be searched for\"\n".to_vec())));
+        }
+    }
     if planted == 6 {
         // a regular FILE named like the first component of a two-component spelling sits in the first search location
         // (the candidate there does not exist: ENOTDIR); the real file is in a later library directory
@@ -332,6 +344,7 @@ pub fn gen_world(seed: u64) -> C13World {
                 2 => "dangling.libsonnet",
                 4 => "loop_a.libsonnet",
                 6 => "pkg/inner.libsonnet",
+                7 => "/nonexistent_abs_verif/ghost.libsonnet",
                 5 => "<ROOT>/app/cyc_a.libsonnet",
                 _ => "isdir.libsonnet",
             };
